@@ -12,7 +12,7 @@ export CARGO_TARGET_DIR=/tmp/confirm_target
 mkdir -p tests
 cp $M/demo.rs tests/demo_x.rs
 rel=""
-grep -q -- "--release" $M/meta.json 2>/dev/null && rel="--release"
+python3 -c "import json,sys; sys.exit(0 if '--release' in json.load(open('$M/meta.json')).get('demo_cmd','') else 1)" 2>/dev/null && rel="--release"
 cargo test --offline $rel --test demo_x >/tmp/confirm_clean.log 2>&1; clean=$?
 git apply $M/patch.diff || { echo "REJECTED patch does not apply"; exit 1; }
 cargo test --offline --lib >/tmp/confirm_suite.log 2>&1; suite=$?
